@@ -8,7 +8,9 @@ EXPLANATION = (
     "the same arguments); (R2) dispatch_event evaluates the limit with ordinal itr+1 and the fetched time, before the counter "
     "increment, the clock write and the handler; (R3) every successful return of finish has observed the event set empty (all "
     "remaining frames are fetched and pushed), and reports the clock as end time; (R4) Builder::{max_itr,max_time,limit} compose "
-    "through RuntimeLimit::add, which yields CombinedOr(old,new) unless old is None; (R5) the stepping wrappers restore the configured limit on every returning path. Decides these necessary conditions only; "
+    "through RuntimeLimit::add, which yields CombinedOr(old,new) unless old is None; (R5) the stepping wrappers restore the configured limit on every returning path. "
+    '(R2 also: a dispatched event is counted before its handler runs, so that a handler driving the runtime itself finds it counted.) '
+    "Decides these necessary conditions only; "
     "prefix-exactness over programs additionally needs C01/C10.")
 ASSUMPTIONS = ["&& and || short-circuit as in Rust; usize/SimTime comparisons are total orders"]
 USES_B = True
